@@ -324,8 +324,8 @@ func c07Classify(c *Ctx, fn *ssa.Function, b *ssa.BasicBlock) (string, string) {
 			if onFalse {
 				return "unknown-kind", ""
 			}
-		case strings.HasSuffix(p, "!=nil)") && strings.Contains(p, "encodeMesgDef") || strings.Contains(p, "alloc[def"):
-			if onFalse {
+		case (strings.HasSuffix(p, "!=nil)") || strings.HasSuffix(p, "==nil)")) && (strings.Contains(p, "encodeMesgDef") || strings.Contains(p, "alloc[def")):
+			if onFalse && strings.HasSuffix(p, "!=nil)") || onTrue && strings.HasSuffix(p, "==nil)") {
 				return "def-nil", ""
 			}
 		case strings.Contains(p, ".FileId.Type"):
